@@ -2,8 +2,8 @@
 """Generates the MC_Search_*.cfg family from one table (single source of truth)."""
 BASE = dict(NV=3, MaxE=3, Lens="{1, 2}", Spds="{1}", Heads="{0}", HVals="{0, 1000, 2000}", Dirs='{"fwd", "rev"}',
             TieVals="{FALSE}", MaxBad=0, Limits="<- NoLimits", Delays="<- NoDelay", Weights="<- DistOnly",
-            Surs="{0}", CUs="<- BaseCU", NoDst="TRUE", OkSubsets="FALSE", NeedConsistent="FALSE")
-INV = "TreeEdgeOK TreeRooted TreeMono TreeAllowed AtDone IterBound SizeBound"
+            Surs="{0}", CUs="<- BaseCU", Rts="<- NoRt", NoDst="TRUE", OkSubsets="FALSE", NeedConsistent="FALSE")
+INV = "TreeEdgeOK TreeRooted TreeMono TreeAllowed AtDone IterBound SizeBound RtBound"
 V = {
  "q": {},
  "": dict(MaxE=4),
@@ -15,6 +15,8 @@ V = {
  "front": dict(MaxBad=2, OkSubsets="TRUE", HVals="{0, 2000}", MaxE=4, NoDst="TRUE", Dirs='{"fwd"}'),
  "units_q": dict(Lens="{36, 72}", Spds="{1, 2}", Weights="<- Blend", CUs="<- MixedCU", HVals="{0, 30}", MaxE=2, NoDst="FALSE", Dirs='{"fwd"}'),
  "units": dict(Lens="{36, 72}", Spds="{1, 2}", Weights="<- Blend", CUs="<- MixedCU", HVals="{0, 30}", MaxE=3, NoDst="FALSE"),
+ "rt_q": dict(Limits="<- FewLimits", Rts="<- SomeRt", HVals="{0, 2000}", MaxE=3, Dirs='{"fwd"}', NoDst="FALSE"),
+ "rt": dict(Limits="<- BothLimits", Rts="<- SomeRt", HVals="{0, 2000}", MaxE=3),
  "limits_q": dict(Limits="<- BothLimits", HVals="{0, 2000}", MaxE=3),
  "limits": dict(Limits="<- AllLimits", HVals="{0, 2000}", MaxE=4, Dirs='{"fwd"}'),
 }
